@@ -132,6 +132,14 @@ func isParamName(fn *ssa.Function, name string) bool {
 			return true
 		}
 	}
+	// named results are declared in the signature too: a body-local of the same name is a shadow
+	if rs := fn.Signature.Results(); rs != nil {
+		for i := 0; i < rs.Len(); i++ {
+			if rs.At(i).Name() == name {
+				return true
+			}
+		}
+	}
 	return false
 }
 
